@@ -155,10 +155,11 @@ func checkModel(c modelCase) *vt.Fail {
 	d := filepath.Join(cachekit.Scratch(), fmt.Sprintf("c06m-%d-%d", os.Getpid(), atomic.AddInt64(&seq, 1)))
 	os.MkdirAll(d, 0o777)
 	defer os.RemoveAll(d)
-	paths := []string{filepath.Join(d, "p0"), filepath.Join(d, "p1"), filepath.Join(d, "p2")}
-	for _, p := range paths {
+	paths := []string{filepath.Join(d, "p0"), filepath.Join(d, "p1"), filepath.Join(d, "p2"), filepath.Join(d, "p3dir")}
+	for _, p := range paths[:3] {
 		os.WriteFile(p, []byte("initial\n"), 0o666)
 	}
+	os.MkdirAll(paths[3], 0o777) // a path that cannot be opened for writing: write entry points may refuse it
 	var holders []*holder
 	defer func() {
 		for _, h := range holders {
@@ -197,7 +198,7 @@ func checkModel(c modelCase) *vt.Fail {
 		return nil
 	}
 	for i, o := range c.Ops {
-		if o.Path < 0 || o.Path > 2 {
+		if o.Path < 0 || o.Path > 3 {
 			continue
 		}
 		switch o.Op {
@@ -225,6 +226,13 @@ func checkModel(c modelCase) *vt.Fail {
 					insideFail = vt.Failf("not-locked-inside-call", "inside the %s callback on p%d the file is not write-locked (exclusive probe %s, shared probe %s). history: %s", o.Entry, o.Path, okStr(ex), okStr(sh), strings.Join(trail, " "))
 				}
 			})
+			if err != nil && o.Path == 3 {
+				// refusing to lock a directory is fine: then nothing is held
+				if f := expect(step + "(refused)"); f != nil {
+					return f
+				}
+				continue
+			}
 			if err != nil {
 				return vt.Failf("HARNESS-acquire-failed", "%s failed with an error (the statement only covers calls that return a lock): %v", step, err)
 			}
@@ -279,7 +287,7 @@ func genModel(t *rapid.T) modelCase {
 	var c modelCase
 	n := rapid.IntRange(1, 25).Draw(t, "nops")
 	for i := 0; i < n; i++ {
-		o := mop{Path: rapid.IntRange(0, 2).Draw(t, "path")}
+		o := mop{Path: rapid.SampledFrom([]int{0, 1, 2, 0, 1, 2, 3}).Draw(t, "path")}
 		if rapid.IntRange(0, 2).Draw(t, "op") == 0 {
 			o.Op = "release"
 			o.Holder = rapid.IntRange(0, 7).Draw(t, "holder")
@@ -333,8 +341,8 @@ type contCase struct {
 }
 
 const (
-	cWriters   = 0  // +path
-	cReaders   = 4  // +path
+	cWriters   = 0 // +path
+	cReaders   = 4 // +path
 	cContended = 8
 	cAcquired  = 9
 )
@@ -541,9 +549,9 @@ func TestContention(t *testing.T) {
 // ---- hand-over: a blocked acquirer returns only after the release ----
 
 type handCase struct {
-	Holder  string `json:"holder"`
-	Waiter  string `json:"waiter"`
-	HoldMS  int    `json:"hold_ms"`
+	Holder string `json:"holder"`
+	Waiter string `json:"waiter"`
+	HoldMS int    `json:"hold_ms"`
 }
 
 func checkHandover(c handCase) *vt.Fail {
